@@ -359,7 +359,8 @@ def selCanon (orderInsensitive caseInsensitive timeInsensitive : List String) (f
     the stored one: it is the origin's answer to the client, not a validation result. -/
 def isValidationOf (stored call : Header) : Bool :=
   let own (v : Str) : List Str := if v.isEmpty then [] else [v]
-  let nonEmpty (l : List Str) : List Str := l.filter (!·.isEmpty)
+  -- (a field line of white space only carries no value: it is trimmed on the wire, RFC 9110 §5.5)
+  let nonEmpty (l : List Str) : List Str := l.filter (fun v => !(trimString v).isEmpty)
   if !(Header.get stored sETag).isEmpty then
     -- the stored ETag is what the origin evaluates; it ignores If-Modified-Since then (RFC 9110 §13.2.2)
     nonEmpty (Header.values call sIfNoneMatch) = [Header.get stored sETag]
